@@ -1,8 +1,27 @@
 (* C02 — ID tables: every request/response is delivered to its addressee, one matching rule per router, no router twice.
    Part 1: the certified checker that is evaluated (extracted) on the netlist the REAL floogen emitted
    is sound for the semantic statement C02_on over the hardware model Hw.v. *)
-From FV Require Import Base RouteMap Netlist Hw Check CheckProofs.
+From FV Require Import Base RouteMap Graph Netlist Hw Check CheckProofs Desc Compile Routing Emit PathProofs ModelProofs.
 
 Theorem C02_checker_sound : forall n, chk_C02 n = [] -> C02_on n.
 Proof. exact chk_C02_sound. Qed.
 Print Assumptions C02_checker_sound.
+
+(* Part 2: universal theorem over the generator model (compiled level, request network), for EVERY
+   oracle that returns shortest paths of the graph (networkx's documented contract), every description
+   and size: from any router, following the emitted tables towards any interface t visits exactly the
+   nodes the oracle's next hops visit, arrives at t after (path length - 1) hops and never visits a node
+   twice.  Structural hypotheses on the compiled graph (unique router names, shortest paths between routers and interfaces run through routers) are explicit. *)
+Theorem C02_model_tables_deliver :
+  forall (sp : oracle) (c : compiled) (ri : rinfo) (t : cni) (id : Z),
+    d_algo (c_desc c) = ID -> gen_routing_info sp c = Ok ri -> In t (c_nis c) -> id_num (cn_id t) = Ok id ->
+    (forall s p, sp (c_graph c) s (cn_name t) = Some p -> path_to_t (g_edge c) (cn_name t) p s) ->
+    (forall s p q, sp (c_graph c) s (cn_name t) = Some p -> path_to_t (g_edge c) (cn_name t) q s -> (length p <= length q)%nat) ->
+    (forall s q, path_to_t (g_edge c) (cn_name t) q s -> sp (c_graph c) s (cn_name t) <> None) ->
+    NoDup (map cr_name (c_rts c)) ->
+    (forall u p, is_router c u -> sp (c_graph c) u (cn_name t) = Some p -> forall x, In x (removelast p) -> is_router c x) ->
+    forall r p k, In r (c_rts c) -> sp (c_graph c) (cr_name r) (cn_name t) = Some p -> length p = S k ->
+      let v := cwalk k c ri (cn_name t) id (cr_name r) in
+      length v = S k /\ last v (cr_name r) = cn_name t /\ NoDup v.
+Proof. exact id_tables_deliver. Qed.
+Print Assumptions C02_model_tables_deliver.
